@@ -169,6 +169,17 @@ def known_checks(ctx):
                 got = run_impl(py4hw, BlockCfg(blk, w), w['config'], [w['inputs']])[0]
                 if got == w['observed'] and got != w['expected']:
                     ctx.known_finding(kf['id'], kf['text'])
+            elif w.get('kind') == 'prio_direct':
+                with quiet():
+                    hw = py4hw.HWSystem()
+                    a = [hw.wire('a%d' % i, x) for i, x in enumerate(w['widths'])]; rr = [hw.wire('r%d' % i, x) for i, x in enumerate(w['widths'])]
+                    py4hw.PriorityEncoder(hw, 'pe', a, rr, w['inc_priority'])
+                    for wire, v in zip(a, w['values']): wire.put(v)
+                    hw.getSimulator().propagateAll()
+                got = [x.get() for x in rr]
+                ctx.count(('known_witness', kf['id']))
+                if got == w['observed'] and got != w['expected']:
+                    ctx.known_finding(kf['id'], kf['text'])
             elif w.get('kind') == 'docstring':
                 src = open(os.path.join(common.REPO, w['file']), encoding='utf-8').read()
                 bh = w['behaviour']
